@@ -1,7 +1,7 @@
 (* C03 - angle addition conserves the quarter-turn count.  Pinned theorems only. *)
 From Coq Require Import ZArith Reals Lra.
 From Flocq Require Import Core BinarySingleNaN.
-Require Import GV.FloatBase GV.FloatLemmas GV.AngleM GV.AngleProofs.
+Require Import GV.FloatBase GV.FloatLemmas GV.AngleM GV.AngleProofs GV.NewProofs GV.CtorProofs GV.GeonumM GV.GeonumProofs GV.PiBounds GV.TrigProofs GV.DotValue GV.DirProofs.
 Open Scope R_scope.
 
 (* all nine spellings (+ x4, * x4, rotate) are the same function *)
@@ -56,3 +56,9 @@ Theorem C03_add_assoc : forall a b c, canonp (rem a) -> canonp (rem b) -> canonp
     <= 4 * (R_ eps10 + / 2251799813685248).
 Proof. exact geometric_add_assoc. Qed.
 Print Assumptions C03_add_assoc.
+
+(* with the REAL pi: the sum points along dirR a + dirR b (dirR x = blade x * pi/2 + rem x), no wrap *)
+Theorem C03_direction : forall a b, canonp (rem a) -> canonp (rem b) ->
+  Rabs (dirR (geometric_add a b) - (dirR a + dirR b)) <= R_ eps10 + / 2251799813685248 + 1 / 10000000000000000.
+Proof. exact geometric_add_dirR. Qed.
+Print Assumptions C03_direction.
